@@ -150,3 +150,29 @@ Fixpoint subst_mods (ms : list module) (p : list (PM.mid * ccont)) : result (lis
   end.
 Definition answer_package (xi : xinfo) (d : design) (top : nat) (p : list (PM.mid * ccont)) : result package :=
   ms <- subst_mods (d_mods d) p ;; export_model xi {| d_mods := ms; d_top := top |}.
+
+(* ------------------------------------------------------------------------------------------------ failure points (C08E) *)
+(* the error the body of entry p raises in module m: the body runs on what the earlier entries left of m - if one of them
+   failed, the module is refused before any body runs (base.py: `raise module._elab_failure`) and entry p fails nowhere *)
+Definition fail_at (ck : bool) (xi : xinfo) (d : design) (m p : nat) : option err :=
+  if negb (PM.eff ccaches p) then None else
+  let c := run_stages ck xi d m (eff_stages p) (cinit d m) in
+  match cc_err c with
+  | Some _ => None
+  | None => match stage_fn ck xi d p m (cc_mod c) with Error e => Some e | Ok _ => None end
+  end.
+
+Definition err_code (e : err) : Z :=
+  match e with
+  | EOutOfBounds => 1 | EEmptySlice => 2 | EZeroStep => 3 | EWidth => 4 | EBadKind => 5 | EUnresolved => 6 | EFuel => 7
+  | EName => 8 | EMissing => 9 | EExtra => 10 | EOrphan => 11 | ENoConn => 12 | ECycle => 13 | EOther => 14
+  end.
+
+(* the failure oracle of Model/C08PassFail.v for a written design: (pass class = cache index, module, error identity) *)
+Definition failure_points_with (enc : nat -> nat -> err -> Z) (ck : bool) (xi : xinfo) (d : design) : list (nat * nat * Z) :=
+  flat_map (fun m => flat_map (fun p => match fail_at ck xi d m p with
+                                        | Some e => [(PM.cache_of ccaches p, m, enc p m e)]
+                                        | None => []
+                                        end) (seq 0 cP))
+           (seq 0 (Datatypes.length (d_mods d))).
+Definition failure_points := failure_points_with (fun _ _ e => err_code e).
